@@ -151,6 +151,17 @@ def gen_case(r, cid, cls, uni=False):
             "pre": pre, "ops": ops, "end": end, "settle_ms": 2500}
 
 
+def with_cancel(r, c):
+    """the caller's Commit context: cancelled right after Commit returns / during the i-th background ResolveLock / never"""
+    if c.get("mode") == "txn" and c.get("end") == "commit":
+        x = r.random()
+        if x < 0.4:
+            c["cancel"] = "after"
+        elif x < 0.6:
+            c["cancel"], c["cancel_at_rpc"] = "rpc", r.randrange(1, 4)
+    return c
+
+
 def reference(case):
     """python reference of one transaction, independent of the Coq model. Returns a dict:
     reads   per get/bget op the expected result (None = not checked: after a failed flush)
@@ -481,7 +492,7 @@ def run(tier, seed, v, stats, robj):
         n = {"quick": 420, "thorough": 1500}.get(tier, 420)
         classes = ["single", "border", "rand", "grow", "probe", "regroup", "regroup", "dynresolve", "dynresolve", "insert", "primary", "crash"]
         cases = json.load(open(os.path.join(vlib.VERIF, "corpus", "C16", "directed_commit.json")))
-        cases += [gen_case(r, "m%d-%d" % (seed, i), classes[i % len(classes)]) for i in range(n)]
+        cases += [with_cancel(r, gen_case(r, "m%d-%d" % (seed, i), classes[i % len(classes)])) for i in range(n)]
         kinds = ["mock"] + (["uni"] if tier == "thorough" else [])
     if "mock" in kinds:
         cf = os.path.join(d, "mock-%s-%d.json" % (tier, seed))
